@@ -47,7 +47,7 @@ def gen_leaf(rng, S, exact):
     n = S.size
     kinds = ['l1', 'l2sq', 'l2sq', 'const', 'zero', 'indzero', 'indlinf', 'lin', 'quadscale',
              'quadmul']
-    if not S.is_pspace and S.kind != 'rn-array':
+    if not S.is_pspace:
         kinds += ['huber', 'huber']
     if S.kind in ('rn', 'rn-const'):
         kinds += ['quadmat', 'quadmat']
@@ -129,8 +129,7 @@ def class_zoo(rng, S):
         out += [['kl', None], ['kl', pos], ['klcc', pos], ['klce', None], ['klce', pos],
                 ['klcecc', pos]]
     if not S.is_pspace or S.space.is_power_space:
-        if S.kind != 'rn-array':
-            out += [['huber', 0.5], ['huber', 2.0]]
+        out += [['huber', 0.5], ['huber', 2.0]]
     if S.kind in ('rn', 'rn-const'):
         out.append(gen_leaf_quadmat(rng, S))
     if S.is_pspace:
